@@ -118,6 +118,7 @@ class Gen:
             pool_ = ["True", "False", "pi", "q0", "name", "version", "for", "1", "1.5", "1+2j", "p0", "sin", "%s", "50%", "%d items", "\\n", "#c", "a,b", " "]
             if self.o.get("brace_strings", True):
                 pool_ += ["{x}", "{0}", "{", "}"]
+            pool_ += ["left\tright", "\t", "a \t b", "x\t"]
             return '"%s"' % r.choice(pool_)
         alphabet = "abcXYZ019 _-+*/=.,:;()[]<>!?#$%&@^~|'\\`"
         n = r.choice([0, 1, 1, 3, 5, 9] + ([40, 120, 300] if self.o["big"] else []))
@@ -435,6 +436,9 @@ class Gen:
         if self.coin(0.15):
             regnums = regnums + [99, 100, 200, 999, 1000, 1001, 1234, 9999, 10000, 65535, 100000]
         regs = ["q%d" % r.choice(regnums) for _ in range(r.choice([1, 1, 2, 2, 3, 4, 5]))]
+        if self.coin(0.12):
+            # the same registers written with leading zeros (REGREF is 'q' followed by any digits)
+            regs = [("q" + "0" * r.choice([1, 2]) + q[1:]) if self.coin(0.6) else q for q in regs]
 
         def term(d):
             c = r.random()
@@ -667,7 +671,13 @@ def script(rng, grammar, n_stmts=(3, 12), **opts):
                     t = g.decl_array(name="p%d" % r.choice([0, 1, 2, 3, 7, 42]), rows=r.choice([1, 1, 2]), param_p=0.0)
                 else:
                     old = [n_ for n_ in g.arrays if n_ not in g.it.prog.pnames]
-                    t = g.decl_array(name=r.choice(old)) if redo and old else g.decl_array()
+                    plike = r.choice(["p0_left", "p1a", "pp0", "p2x", "ppp12", "p_1"]) if g.o["tdm"] and g.coin(0.3) else None
+                    if plike and plike not in g.used:
+                        g.used.add(plike)
+                        t = g.decl_array(name=plike, param_p=0.0)
+                        g.tags.add("tdm-plike-array-name")
+                    else:
+                        t = g.decl_array(name=r.choice(old)) if redo and old else g.decl_array()
                     if redo and old and t:
                         g.tags.add("redeclared-array")
             else:
@@ -703,7 +713,7 @@ def loop(g, body_n=None, var=None):
     c = r.random()
     if vt in ("int", "float") and c < 0.5:
         a = r.randint(0, 5)
-        b = a + r.choice([0, 1, 2, 3, 4, 6] + ([17, 40] if g.o["big"] else []))
+        b = a + r.choice([0, 1, 2, 3, 4, 6] + ([17, 40] if g.o["big"] else []) + ([33, 50] if r.random() < 0.04 else []))
         if g.coin(0.1):
             b = r.randint(0, a)
         hdr = "%d:%d" % (a, b)
